@@ -14,8 +14,8 @@ from fractions import Fraction
 PROP = "C09"
 META = {
  "engine": "P-pattern-algebra",
- "text": "Coq theorems (Props/C09.v, closed under the global context) prove on the executable model of the pattern classes (Pat/Step.v, transcribed from core.py / sequence.py / scalar.py): once a pattern of the sticky fragment fpat (constants, sequences of scalars, series, ranges, geometric series, reverse, ping-pong with scalar terminating parameters; the 15 operators, &, abs, int, skip-if, references, stutter, counter, pad, pad-to-multiple, collapse, no-repeats, changed, diff, round, wrap, loop, subsequence, index-of, dict-key, array-index, concatenate over them, nested to any depth; closed under next(): C09_fragment_closed) has raised StopIteration, no later next() yields a value (C09_sticky, C09_sticky_transformers: per-class invariants, induction on the nesting; still open, C09_sticky_remaining_classes_partial: PDict, PArrayIndex over a literal list and pattern items, covered by the correspondence and the oracle only); nextn(n) is the list of the first min(n, remaining) results of repeated next and leaves the object where those calls leave it, all(m) likewise followed by reset(), len is the length of all(); copy() is the identity on the tree model, so a copy continues with exactly the outputs of the original. The model is tied to the repository on every run by scripts interleaving next/nextn/all/len/for/copy on up to four handles, compared inside Coq; an implementation-only oracle checks stickiness, helper results against repeated next() of a fresh instance, and independence of copies. For 'a drained track stays drained' Pat/Drained.v models Timeline.tick/Track.tick for a note track over any stream (in particular the stochastic machines of Pat/Chance.v, generator as data): once the stream is dead the re-polling track plays nothing more and finishes when its last note-off is due (C09_drained_track_stays_drained); PShuffle and PWhite are sticky in any state for any generator (C09_pshuffle_sticky, C09_pwhite_sticky); tied to the code by comparing, inside Coq, ticks-until-removal and notes of real tracks with gate > 1 and the StopIteration shape of PShuffle/PWhite. A library stream (oracle only) runs every Pattern subclass of isobar.pattern (list read from the live package, fail closed; seeded stochastic classes, nestings over them) through >= 6 polls after the first StopIteration, helper/copy scripts around and after the end, and a Track whose last note outlasts the stream.",
- "note": "Trusted: Coq kernel + VM; the harness; copy.deepcopy separating the object graph (independence of copies is true by construction in the tree model; it is the correspondence with interleavings that validates it against the implementation). Revival by design is excluded from the stickiness oracle and theorems: PReset (re-arms its input), terminating parameters given as varying patterns (re-read at every step, C12), PArrayIndex over a list containing patterns. Classes outside the model (PPermut, PArpeggiator, stochastic, PFade*, tonal, PMap* ...) are judged by the oracle only (library stream); classes drawing from the process-wide random module (PExplorer, PFadeNotewiseRandom, PLSystem '?') for stickiness and track end only; PStaticPattern, PW*, PLFO, PMIDIControl, PMonomeArcControl are excluded (need a running timeline / hardware). The drained-track model covers constant duration and gate on the quarter-tick grid. Known findings: PFadeNotewise/PFadeNotewiseRandom revive, PPatternGeneratorAction raises TypeError after its StopIteration.",
+ "text": "Coq theorems (Props/C09.v, closed under the global context) prove on the executable model of the pattern classes (Pat/Step.v, transcribed from core.py / sequence.py / scalar.py): once a pattern of the sticky fragment fpat (constants, sequences of scalars, series, ranges, geometric series, reverse, ping-pong with scalar terminating parameters; the 15 operators, &, abs, int, skip-if, references, stutter, counter, pad, pad-to-multiple, collapse, no-repeats, changed, diff, round, wrap, loop, subsequence, index-of, dict-key, array-index, concatenate over them, nested to any depth; closed under next(): C09_fragment_closed) has raised StopIteration, no later next() yields a value (C09_sticky, C09_sticky_transformers: per-class invariants, induction on the nesting; still open, C09_sticky_remaining_classes_partial: PDict, PArrayIndex over a literal list and pattern items, covered by the correspondence and the oracle only); nextn(n) is the list of the first min(n, remaining) results of repeated next and leaves the object where those calls leave it, all(m) likewise followed by reset(), len is the length of all(); copy() is the identity on the tree model, so a copy continues with exactly the outputs of the original; for pattern GRAPHS with shared sub-pattern objects (Pat/Dag.v: heap of cells, operator expressions and PDict roots over addresses, copy = deepcopy with one memo) every script of next/nextn/copy on any number of handles observes what the original alone produces at the handle's position - continuation and independence for all DAGs (C09_dag_copy_interleavings), tied to the repository by generated DAG programs with copy-heavy scripts, judged against a fresh build and compared with the model inside Coq. The model is tied to the repository on every run by scripts interleaving next/nextn/all/len/for/copy on up to four handles, compared inside Coq; an implementation-only oracle checks stickiness, helper results against repeated next() of a fresh instance, and independence of copies. For 'a drained track stays drained' Pat/Drained.v models Timeline.tick/Track.tick for a note track over any stream (in particular the stochastic machines of Pat/Chance.v, generator as data): once the stream is dead the re-polling track plays nothing more and finishes when its last note-off is due (C09_drained_track_stays_drained); PShuffle and PWhite are sticky in any state for any generator (C09_pshuffle_sticky, C09_pwhite_sticky); tied to the code by comparing, inside Coq, ticks-until-removal and notes of real tracks with gate > 1 and the StopIteration shape of PShuffle/PWhite. A library stream (oracle only) runs every Pattern subclass of isobar.pattern (list read from the live package, fail closed; seeded stochastic classes, nestings over them) through >= 6 polls after the first StopIteration, helper/copy scripts around and after the end, and a Track whose last note outlasts the stream.",
+ "note": "Trusted: Coq kernel + VM; the harness; copy.deepcopy itself (modelled as copy_root: one memo, every reachable cell copied once; the correspondence with interleavings validates it against the implementation). Sharing below classes other than the operators and PDict (PSequence items, PConcatenate inputs, PStutter count ...) is judged by the oracle only; stickiness and reset() of graphs are not judged. Revival by design is excluded from the stickiness oracle and theorems: PReset (re-arms its input), terminating parameters given as varying patterns (re-read at every step, C12), PArrayIndex over a list containing patterns. Classes outside the model (PPermut, PArpeggiator, stochastic, PFade*, tonal, PMap* ...) are judged by the oracle only (library stream); classes drawing from the process-wide random module (PExplorer, PFadeNotewiseRandom, PLSystem '?') for stickiness and track end only; PStaticPattern, PW*, PLFO, PMIDIControl, PMonomeArcControl are excluded (need a running timeline / hardware). The drained-track model covers constant duration and gate on the quarter-tick grid. Known findings: PFadeNotewise/PFadeNotewiseRandom revive, PPatternGeneratorAction raises TypeError after its StopIteration.",
 }
 
 REFN = 40          # calls of next() recorded for the reference run
@@ -592,6 +592,198 @@ def check_drained_model(run, cases, outs, flagged):
             "python": lib_snippet(c["src"], track=c["track"]) if c.get("track") else lib_snippet(c["src"], [("next", 0)] * 12)}, found_input=False)
 
 
+# ==========================================================================================================
+# DAG stream: pattern GRAPHS in which one sub-pattern object is reachable from several parents (two keys of a
+# PDict, both operands of an operator, ...).  A program = cells c0.. (objects built once) + a root expression
+# that may mention a cell any number of times; its Python source is ONE expression
+#     (lambda c0, c1: iso.PDict({'note': iso.PAdd(c0, 60), 'amp': iso.PMul(c0, 10)}))(iso.PSeries(0, 1, 10), ...)
+# so the library-stream driver, oracle (lib_judge: every handle's outputs are simulated from repeated next() on a
+# FRESH build of the same program) and replay work on it unchanged.  Model: coq/Pat/Dag.v (heap of cells, dx, droot,
+# copy_root = deepcopy with one memo), theorem C09_dag_copy_interleavings; compared inside Coq for programs whose
+# cells are expressions of engine P and whose root is an operator expression / a PDict over such.
+# ==========================================================================================================
+DAG_OPS = ["PAdd", "PAdd", "PSub", "PMul", "PMul", "PMod", "PGreaterThan", "PEqual", "PFloorDiv"]
+DAG_TEMPLATES = [   # sharing below other parents (oracle only); C = the shared cell, D = another cell
+    "iso.PSequence([C, C], 2)", "iso.PSequence([C, 7, C], 1)", "iso.PConcatenate([C, iso.PStutter(C, 2)])", "iso.PStutter(C, iso.PAbs(C))",
+    "iso.PSkipIf(C, iso.PGreaterThan(C, 60))", "iso.PDict({'a': C, 'b': iso.PDict({'c': C, 'd': D})})", "iso.PArrayIndex([C, D, C], iso.PSequence([0, 1, 2, 2, 0], 1))",
+    "iso.PDict({'note': C, 'dur': iso.PSubsequence(C, 0, 2), 'amp': D})", "iso.PAdd(iso.PLoop(C, 2), C)", "iso.PPad(iso.PAdd(C, C), 5)",
+    "iso.PDict({'a': iso.PCollapse(C), 'b': C})", "iso.PMap(C, dbl) + C",
+]
+DAG_HEADER = HEADER + """From Isobar Require Import Pat.Dag.
+Fixpoint dag_cells (es : list pexpr) : option (list pat) :=
+  match es with
+  | [] => Some []
+  | e :: r => match init Val.binop LMAX FUEL e, dag_cells r with Yield p, Some ps => Some (p :: ps) | _, _ => None end
+  end.
+Definition dagcmp (es : list pexpr) (r : droot) (ops : list dop) (expected : list (outcome val)) : nat :=
+  match dag_cells es with Some h => dcompare Val.binop LMAX FUEL ([r], h) ops expected | None => 2%nat end.
+Definition dagtrace (es : list pexpr) (r : droot) (ops : list dop) : list (outcome val) :=
+  match dag_cells es with Some h => dtrace Val.binop LMAX FUEL ([r], h) ops | None => [] end.
+"""
+
+
+def dx_gen(rng, ncells, depth, force=None):
+    k = rng.random()
+    if depth <= 0 or k < 0.35:
+        if force is not None or rng.random() < 0.8:
+            return {"ref": force if force is not None else rng.randrange(ncells)}
+        return {"val": rng.choice([60, 10, 2, -1, 0.5, None, 3])}
+    if k < 0.9:
+        l, r = dx_gen(rng, ncells, depth - 1, force), dx_gen(rng, ncells, depth - 1)
+        if rng.random() < 0.5:
+            l, r = r, l
+        return {"bin": [rng.choice(DAG_OPS), l, r]}
+    return {"abs": dx_gen(rng, ncells, depth - 1, force)}
+
+
+def dx_refs(d):
+    if "ref" in d:
+        return [d["ref"]]
+    if "bin" in d:
+        return dx_refs(d["bin"][1]) + dx_refs(d["bin"][2])
+    if "abs" in d:
+        return dx_refs(d["abs"])
+    return []
+
+
+def dx_source(d):
+    if "ref" in d:
+        return "c%d" % d["ref"]
+    if "val" in d:
+        return scalar_source(d["val"])
+    if "abs" in d:
+        return "iso.PAbs(%s)" % dx_source(d["abs"])
+    return "iso.%s(%s, %s)" % (d["bin"][0], dx_source(d["bin"][1]), dx_source(d["bin"][2]))
+
+
+def dx_coq(d):
+    if "ref" in d:
+        return "(DRef %d)" % d["ref"]
+    if "val" in d:
+        return "(DVal %s)" % val_coq(d["val"])
+    if "abs" in d:
+        return "(DAbs %s)" % dx_coq(d["abs"])
+    return "(DBin %s %s %s)" % (BINOPS[d["bin"][0]][1], dx_coq(d["bin"][1]), dx_coq(d["bin"][2]))
+
+
+def dag_source(cells, root_src):
+    return "(lambda %s: %s)(%s)" % (", ".join("c%d" % i for i in range(len(cells))), root_src, ", ".join(cells))
+
+
+def dag_script(rng):
+    """copy-heavy script over up to 4 handles: every script takes at least one copy and advances both sides of it"""
+    ops, handles = [("next", 0)] * rng.choice([0, 0, 1, 2, 3]), 1
+    for _ in range(rng.randint(1, 3)):
+        if handles < 4:
+            ops.append(("copy", rng.randrange(handles))); handles += 1
+        for _ in range(rng.randint(1, 5)):
+            h = rng.randrange(handles) if rng.random() < 0.6 else handles - 1
+            k = rng.random()
+            ops.append(("next", h) if k < 0.6 else ("nextn", h, rng.randint(0, 5)) if k < 0.85 else ("for", h, rng.randint(0, 4)))
+    if rng.random() < 0.3:
+        ops.append((rng.choice(["nextn", "for"]), rng.randrange(handles), 12))
+    return ops
+
+
+def check_dags(run, gen):
+    rng = run.rng
+    thorough = run.tier == "thorough"
+    cases = []
+    for i in range(3000 if thorough else 300):
+        modelled = rng.random() < 0.7
+        ncells = rng.choice([1, 1, 2, 2, 3])
+        exprs, srcs = [], []
+        for _ in range(ncells):
+            if modelled:
+                for _ in range(10):
+                    e = gen.gen(rng.choice([0, 0, 1, 2]), rng.random() < 0.7)
+                    if revives_by_design(e) is None:
+                        break
+                exprs.append(e); srcs.append(to_source(e))
+            else:
+                srcs.append(_fin_input(rng) if rng.random() < 0.8 else "iso.PSeries(%d, %d)" % (rng.randint(0, 60), rng.randint(1, 3)))
+        shared = rng.randrange(ncells)
+        if not modelled and rng.random() < 0.5:
+            t = rng.choice(DAG_TEMPLATES)
+            root_src = t.replace("C", "c%d" % shared).replace("D", "c%d" % rng.randrange(ncells))
+            root, kind = None, "template"
+        elif rng.random() < 0.72:
+            keys = ["note", "amplitude", "duration", "gate"][:rng.randint(1, 4)]
+            kv = [[k, dx_gen(rng, ncells, rng.choice([0, 1, 1, 2]), shared if j < 2 else None)] for j, k in enumerate(keys)]
+            root = {"dict": kv}
+            root_src = "iso.PDict({%s})" % ", ".join("%r: %s" % (k, dx_source(d)) for k, d in kv)
+            kind = "PDict"
+        else:
+            d = {"bin": [rng.choice(DAG_OPS), dx_gen(rng, ncells, rng.choice([0, 1]), shared), dx_gen(rng, ncells, rng.choice([0, 1, 2]), shared)]}
+            root = {"expr": d}
+            root_src = dx_source(d)
+            kind = "operator"
+        refs = dx_refs(root["expr"]) if root and "expr" in root else [a for _, d in root["dict"] for a in dx_refs(d)] if root else [shared, shared]
+        cases.append({"cls": "DAG-" + kind, "src": dag_source(srcs, root_src), "finite": False, "script": [list(o) for o in dag_script(rng)],
+                      "track": None, "dag": {"exprs": exprs, "root": root, "modelled": modelled and root is not None},
+                      "shared": len(refs) != len(set(refs))})
+    outs = run_lib(run, cases)
+    found, terms, owners = [], [], []
+    for c, out in zip(cases, outs):
+        run.count(); run.dist("stream.dag"); run.dist("dag." + c["cls"]); run.dist("dag.shared-cell" if c["shared"] else "dag.no-sharing")
+        run.dist("dag.cells-engine-P" if c["dag"]["modelled"] else "dag.cells-library")
+        bad, notes = lib_judge(c, out)
+        for nt in notes:
+            if nt == "script-judged":
+                run.dist("dag.script-judged")
+                run.nontrivial("dag " + c["src"] + repr(c["script"]))
+            elif nt not in ("nontrivial-sticky", "track-judged") and not nt.startswith("no StopIteration"):
+                run.discard("dag: " + nt.split("(")[0].strip())
+        run.cov["oracle_evaluations"] += sum(len(out.get(k) or ()) for k in ("ref", "script"))
+        bad = [(sig, doc) for sig, doc in bad if sig["kind"] in ("copy", "helper")]      # stickiness of graphs is not judged here
+        for sig, doc in bad:
+            sig = dict(sig, stream="dag")
+            found.append((len(c["src"]) + 20 * len(c["script"]), len(found), sig, doc))
+        if bad or not c["dag"]["modelled"] or out.get("status") or len(out.get("script", ())) < 2:
+            continue
+        try:
+            ops = []
+            for o in c["script"]:
+                ops.append("(DNext %d)" % o[1] if o[0] == "next" else "(DCopy %d)" % o[1] if o[0] == "copy" else "(DNextN %d %d)" % (o[1], o[2]))
+            root = c["dag"]["root"]
+            rt = "(RExpr %s)" % dx_coq(root["expr"]) if "expr" in root else "(RDict %s)" % lst(["(%s, %s)" % (key_coq(k), dx_coq(d)) for k, d in root["dict"]])
+            exp = [obs_coq(o) for o in out["script"][1:]]
+            terms.append("dagcmp %s %s %s %s" % (lst([to_coq(e) for e in c["dag"]["exprs"]]), rt, lst(ops), lst(exp)))
+            owners.append((c, out, rt, ops))
+        except Unrepresentable as e:
+            run.discard("dag model: unrepresentable")
+    seen = {}
+    for _, _, sig, doc in sorted(found, key=lambda t: t[:2]):
+        key = json.dumps(sig, sort_keys=True)
+        if key not in seen and len(seen) < 4:
+            seen[key] = 1
+            run.violation(sig, doc)
+    # ---- model (Pat/Dag.v), inside Coq
+    codes = []
+    chunk = 60
+    def one(i0):
+        src = DAG_HEADER + "\nDefinition results : list nat := [\n" + ";\n".join(terms[i0:i0 + chunk]) + "\n].\nEval vm_compute in results.\n"
+        return parse_nat_list(run.coqc_text("dag%d" % i0, src, timeout=300))
+    with ThreadPoolExecutor(max_workers=8) as ex:
+        for r in ex.map(one, range(0, len(terms), chunk)):
+            codes.extend(r)
+    run.cov["dag_model_comparisons"] = len(terms)
+    reported = False
+    for (c, out, rt, ops), k in zip(owners, codes):
+        if k == 0:
+            run.cov["traces_validated_against_impl"] += 1
+        elif k == 2:
+            run.discard("dag model: Inexact/OutOfFuel")
+        elif not reported:
+            reported = True
+            run.violation({"kind": "correspondence", "class": c["cls"], "model": "Pat/Dag.v"}, {
+                "broken": "correspondence Pat/Dag.v (dstep / rstep / copy_root) vs the implementation on a pattern graph with shared cells: "
+                          "the theorem C09_dag_copy_interleavings no longer speaks about this code",
+                "case": {"src": c["src"], "ops": c["script"]}, "observed": [pretty_obs(o) for o in out["script"]],
+                "model": run.coq_eval(DAG_HEADER, "dagtrace %s %s %s" % (lst([to_coq(e) for e in c["dag"]["exprs"]]), rt, lst(ops))),
+                "python": lib_snippet(c["src"], [tuple(o) for o in c["script"]])}, found_input=False)
+
+
 model_exprs_by_src = {}
 
 
@@ -693,6 +885,9 @@ def check(run):
     model_exprs_by_src.clear()
     model_exprs_by_src.update({to_source(e): e for e in pool})
     check_library(run, pool)
+
+    # ---- pattern graphs with shared sub-pattern objects: copies and helpers (oracle + Pat/Dag.v)
+    check_dags(run, gen)
 
     # ---- helpers and copies against repeated next() on a fresh instance
     def judge_script(c):
